@@ -60,7 +60,12 @@ Pool == <<
     <<"_uuid", "includes", "u3", "atom">>, <<"_uuid", "excludes", "u3", "atom">>
 >>
 
+\* the same rows with distinct values in column a: schema (unique) indexes on a apply
+T4u == << Row(1, {1}, {1, 2}, (1 :> 1)), Row(3, {}, {}, EmptyMap),
+          Row(2, {2}, {2, 3}, (1 :> 2 @@ 2 :> 1)), Row(0, {1}, {1}, (2 :> 2)) >>
+
 PairCases == {[t |-> "pair", rows |-> T4, conds |-> <<Pool[i], Pool[j]>>] : i, j \in DOMAIN Pool}
+       \cup {[t |-> "pair", rows |-> T4u, conds |-> <<Pool[i], Pool[j]>>] : i, j \in DOMAIN Pool}
 TripleCases == {[t |-> "triple", rows |-> T4, conds |-> <<Pool[i], Pool[j], Pool[k]>>]
                   : i \in {1, 9, 14, 22, 28}, j \in {2, 12, 16, 23, 29}, k \in DOMAIN Pool}
 
